@@ -2,12 +2,14 @@ module verifharness
 
 go 1.20
 
-require github.com/scrapli/scrapligo v0.0.0
+require (
+	github.com/scrapli/scrapligo v0.0.0
+	golang.org/x/crypto v0.26.0
+)
 
 require (
 	github.com/creack/pty v1.1.23 // indirect
 	github.com/sirikothe/gotextfsm v1.0.1-0.20200816110946-6aa2cfd355e4 // indirect
-	golang.org/x/crypto v0.26.0 // indirect
 )
 
 replace github.com/scrapli/scrapligo => /repo
